@@ -38,6 +38,7 @@ def world(ctx):
     w.provider(1, generation=3)
     w.provider(2, parent=1, generation=0)
     w.provider(3, generation=0)
+    w.provider(4, parent=1, generation=0)
     inv = dict(total=8, reserved=0, min_unit=1, max_unit=8, step_size=1,
                allocation_ratio=1.0)
     w.inventory(1, 'VCPU', present=True, **inv)
@@ -315,6 +316,15 @@ FEATURES = [
     (37, None, 're-parenting via PUT',
      ('PUT', '/resource_providers/' + U(2),
       {'name': 'p2', 'parent_provider_uuid': U(3)}), st(200)),
+    (37, None, 're-parenting within the same tree via PUT',
+     ('PUT', '/resource_providers/' + U(2),
+      {'name': 'p2', 'parent_provider_uuid': U(4)}), st(200)),
+    (37, None, 'un-parenting via PUT',
+     ('PUT', '/resource_providers/' + U(2),
+      {'name': 'p2', 'parent_provider_uuid': None}), st(200)),
+    (14, None, 'first parenting of a root via PUT',
+     ('PUT', '/resource_providers/' + U(3),
+      {'name': 'p3', 'parent_provider_uuid': U(1)}), st(200)),
     (38, None, 'consumer_type in PUT allocations',
      ('PUT', '/allocations/' + CONS(5),
       {'allocations': ALLOC_DICT, 'project_id': 'p', 'user_id': 'u',
